@@ -15,7 +15,41 @@ enum {
   MYTH_VP_TLS_NODE_ALLOC = 100,  /* a = tree, b = node, v = size */
   MYTH_VP_TLS_NODE_FREE  = 101,  /* a = tree, b = node */
   MYTH_VP_TLS_KEY_CAS_ALLOC = 102, /* before the CAS of key alloc; a = allocator, b = entry */
-  MYTH_VP_TLS_KEY_CAS_DEALLOC = 103 /* before the CAS of key dealloc */
+  MYTH_VP_TLS_KEY_CAS_DEALLOC = 103, /* before the CAS of key dealloc */
+  /* scheduler (SPIN marks) */
+  MYTH_VP_SCHED_IDLE = 1,        /* sched loop iteration that found nothing to run */
+  MYTH_VP_SPINLOCK = 2,          /* failed trylock inside myth_spin_lock_body; a = lock */
+  /* blocking discipline: callback running after the caller's context was saved */
+  MYTH_VP_BLOCK_CB_BEGIN = 10,   /* a = queue/stack/uncond, b = suspended thread */
+  MYTH_VP_BLOCK_CB_ENQ = 11,     /* published (enqueued / pushed / u->th set) */
+  MYTH_VP_BLOCK_CB_END = 12,
+  MYTH_VP_BLOCK_BEGIN = 13,      /* caller chose next context, about to switch; a = object, b = cur */
+  MYTH_VP_WAKE_DEQ = 15,         /* a = queue, b = dequeued thread (SPIN variant when none) */
+  MYTH_VP_WAKE_PUSH = 16,        /* a = queue, b = thread pushed to the run queue */
+  /* mutex: a = mutex, v = value read / CAS outcome */
+  MYTH_VP_MX_LOCK_READ = 20, MYTH_VP_MX_LOCK_CAS1 = 21, MYTH_VP_MX_LOCK_CAS2 = 22,
+  MYTH_VP_MX_TRY_READ = 23, MYTH_VP_MX_TRY_CAS = 24,
+  MYTH_VP_MX_UNLOCK_READ = 25, MYTH_VP_MX_UNLOCK_CAS2 = 26, MYTH_VP_MX_UNLOCK_CAS0 = 27,
+  MYTH_VP_MX_CLEAR_BIT = 28,
+  /* cond: a = cond */
+  MYTH_VP_COND_WAIT = 30, MYTH_VP_COND_SIGNAL = 31, MYTH_VP_COND_BCAST = 32,
+  /* barrier: a = barrier */
+  MYTH_VP_BAR_READ = 40, MYTH_VP_BAR_CAS = 41, MYTH_VP_BAR_RESET = 42, MYTH_VP_BAR_RETURN = 43,
+  /* join counter: a = jc */
+  MYTH_VP_JC_WAIT_READ = 50, MYTH_VP_JC_WAIT_CAS = 51, MYTH_VP_JC_DEC_READ = 52,
+  MYTH_VP_JC_DEC_CAS = 53, MYTH_VP_JC_WAIT_RETURN = 54,
+  /* uncond: a = uncond */
+  MYTH_VP_UC_SIG_READ = 60, MYTH_VP_UC_SIG_CLEAR = 61,
+  /* once: a = once_control */
+  MYTH_VP_ONCE_READ = 70, MYTH_VP_ONCE_CAS = 71, MYTH_VP_ONCE_DONE = 72, MYTH_VP_ONCE_WAIT_READ = 73,
+  /* create / join / finish / detach: a = target thread */
+  MYTH_VP_JOIN_LOCKED = 80, MYTH_VP_JOIN_CB_SET = 81, MYTH_VP_JOIN_SPIN = 82, MYTH_VP_JOIN_REAP = 83,
+  MYTH_VP_FIN_BEGIN = 84, MYTH_VP_FIN_LOCKED = 85, MYTH_VP_FIN_STACK_FREE = 86, MYTH_VP_FIN_PUBLISH = 87,
+  MYTH_VP_DETACH_FAST = 88, MYTH_VP_DETACH_LOCKED = 89, MYTH_VP_TRYJOIN_LOCKED = 90,
+  MYTH_VP_CREATE_BEGIN = 91, MYTH_VP_CREATE_1 = 92, MYTH_VP_CREATE_PUSHED = 93,
+  /* allocation ledger: b = block */
+  MYTH_VP_DESC_GET = 95, MYTH_VP_DESC_FREE = 96, MYTH_VP_STACK_GET = 97, MYTH_VP_STACK_FREE = 98,
+  MYTH_VP_YIELD_CB = 99
 };
 
 #ifdef MYTH_VERIF
